@@ -58,6 +58,16 @@ CLAIMED = {
          'replay it on the implementation (DESIGN.md section 7, F10).',
     technique='Coq proof (range invariant over all op sequences; refutation witness) + trace-refinement correspondence + oracle',
     design='6/C05'),
+ 'C06': dict(
+    text='Theorems over an executable reference semantics of a pass (GDL-lite: rules = pattern of glyph sets with uniform pre-context, per-item actions put_glyph / put_subs / delete / insert / advance / '
+         'shift, cursor after the window): the rule that fires is a rule of the pass, matches, and no matching rule has higher precedence (longer sort key, then earlier rule); no rule fires iff none '
+         'matches; where none matches the stream passes through unchanged; a pass terminates within length+1 steps; passes compose in font order.  Tie B: random rule programs are compiled by a GDL-lite '
+         'compiler written for this check (FSM by subset construction over overlapping glyph sets, action bytecode, Silf v2 layout, grafted on a shipped font) and the REAL engine shapes random glyph '
+         'strings with them; glyph ids, advances and design-unit origins must equal the extracted reference exactly (12,000 program x string pairs per thorough run).',
+    note='partial: GDL-lite v1 has no rule constraints, no cursor adjustment (ret = 0), no attachments and only substitution passes; pass constraints, cntxt_item, feature / attribute tests, positioning and '
+         'bidi / mirroring are outside.  The compiler is trusted only in the sense that a wrong compilation shows as a disagreement.',
+    technique='Coq proof (selection = maximum of the precedence order over matching rules, pass-through, termination, composition) over hand-written reference semantics + differential correspondence through compiled fonts on the real engine',
+    design='6/C06'),
  'C07': dict(
     text='Theorems over a model of the bytecode loader (decoder with its stack-depth analysis) and the interpreter loop for opcodes 0x00-0x18, '
          '0x30-0x32, 0x3E-0x41: (1) for EVERY expression tree with 32-bit constants that fits the stack, the loader accepts its postfix bytecode '
